@@ -15,10 +15,10 @@ func init() {
 		Level: "Decides that the snapshot series record encoder and decoder switch over the same chunk encodings and cover all of them, that a snapshot is only used when the WAL reaches it, " +
 			"that a failed or partially applied snapshot is discarded together with the replay position taken from it before the WAL is replayed, that a new snapshot is complete before older ones " +
 			"are deleted, and that every adjustment of the per-stripe m-map-ready counter is tied to the head-chunk count crossing two (the snapshot loader included).",
-		Note:     "Trusted: go/packages, go/types, go/cfg; exception tables in checker/c23.go.  The wire grammar of the snapshot records is not compared (see DESIGN §7).",
-		Covers:   "encoding switches of memSeries.encodeToSnapshotRecord / decodeSeriesFromChunkSnapshot; Head.Init snapshot gating and discard; Head.ChunkSnapshot publish/delete order; inc/decMmapReady sites; state restored per series by loadChunkSnapshot (last values, nextAt, appender).",
-		NotCover: "byte-level round trip of the snapshot records; equality of the restored head with a WAL-replayed head.",
-		Run:      runC23,
+		Note:           "Trusted: go/packages, go/types, go/cfg; exception tables in checker/c23.go.  The wire grammar of the snapshot records is not compared (see DESIGN §7).",
+		Covers:         "encoding switches of memSeries.encodeToSnapshotRecord / decodeSeriesFromChunkSnapshot; Head.Init snapshot gating and discard; Head.ChunkSnapshot publish/delete order; inc/decMmapReady sites; state restored per series by loadChunkSnapshot (last values, nextAt, appender).",
+		NotCover:       "byte-level round trip of the snapshot records; equality of the restored head with a WAL-replayed head.",
+		Run:            runC23,
 		MinObligations: 25,
 	})
 }
